@@ -21,6 +21,7 @@ type Entry struct {
 	Idx  int             // position in the ledger
 	Pos  int             // position among the non-ping inbound messages of this incarnation (inbound only)
 	In   bool            // true: client -> broker
+	WSeq uint64          // inbound: the client's write sequence number (orders writes across the two sides of a connection)
 	T    int64           // microseconds since the world started
 	Msg  message.Message // decoded message
 	Kind string
@@ -158,7 +159,7 @@ func (b *Broker) Serve(l *Link) *Inc {
 		go func() {
 			defer b.wg.Done()
 			for {
-				raw, ok := l.Unrel.Recv()
+				raw, wseq, ok := l.Unrel.RecvSeq()
 				if !ok {
 					return
 				}
@@ -167,6 +168,7 @@ func (b *Broker) Serve(l *Link) *Inc {
 					continue
 				}
 				e := b.log(inc, true, m)
+				e.WSeq = wseq
 				b.annotate(inc, e)
 				b.handle(inc, e)
 			}
@@ -283,7 +285,7 @@ func (inc *Inc) SendRaw(b []byte) bool {
 
 func (inc *Inc) loop() {
 	for {
-		raw, ok := inc.Link.Recv()
+		raw, wseq, ok := inc.Link.RecvSeq()
 		if !ok {
 			return
 		}
@@ -294,6 +296,7 @@ func (inc *Inc) loop() {
 			continue
 		}
 		e := inc.B.log(inc, true, m)
+		e.WSeq = wseq
 		inc.B.annotate(inc, e)
 		v := Default
 		if inc.B.Hook != nil {
